@@ -20,6 +20,8 @@ pub struct GenOpts {
     pub allow_empty_cones: bool,
     pub p_full_prob: f64,
     pub psd_max: usize,
+    /// upper limit of the number of cones in a generated cone list
+    pub max_cones: usize,
 }
 
 impl Default for GenOpts {
@@ -33,6 +35,7 @@ impl Default for GenOpts {
             allow_empty_cones: true,
             p_full_prob: 0.3,
             psd_max: 5,
+            max_cones: 5,
         }
     }
 }
@@ -95,7 +98,9 @@ pub fn random_cone(rng: &mut Rng, kind: &str, room: usize, o: &GenOpts) -> Optio
 
 pub fn random_cone_list(rng: &mut Rng, o: &GenOpts) -> Vec<ConeT> {
     let mut cs = vec![];
-    let ncones = rng.usize(1, 5);
+    // mostly a handful of cones; one list in eight is long (index maps, headers and per-cone loops see more
+    // than five blocks of a kind)
+    let ncones = if rng.bool(0.125) { rng.usize(6, o.max_cones.max(5) + 8) } else { rng.usize(1, o.max_cones.max(1)) };
     let mut room = o.mmax;
     for _ in 0..ncones {
         let k = *rng.choose(&o.kinds);
